@@ -316,3 +316,72 @@ func twinScripts(r *hx.Rng, pairs int) []script {
 	}
 	return out
 }
+
+// forged: a message that names honest member i as its signer but was not made by i: garbage, another
+// member's share replayed, or a share made with the attacker's (outsider's) own key. The signer id is an
+// unauthenticated field until the pairing check; none of these may cost member i its slot.
+func forged(r *hx.Rng, i, n int, extra string) string {
+	switch r.Intn(4) {
+	case 0:
+		return fmt.Sprintf("signer=%d sig=junk%s", i, extra)
+	case 1:
+		j := (i + 1 + r.Intn(n-1)) % n
+		if n == 1 {
+			j = n
+		}
+		return fmt.Sprintf("signer=%d sig=s.%d.H rand=s.%d.R%s", i, j, j, extra)
+	case 2:
+		return fmt.Sprintf("signer=%d sig=s.%d.H rand=s.%d.R%s", i, n, n, extra)
+	default:
+		return fmt.Sprintf("signer=%d sig=rnd rand=rnd%s", i, extra)
+	}
+}
+
+// impersonationScripts: for ONE honest member and for ALL of them, a forged message naming the member
+// arrives BEFORE the member's genuine one — while the message is parked (no party yet / party in round0
+// under its pre-change key), while round0 stores it, and live. Deterministic family, run before random scripts.
+func impersonationScripts() []script {
+	var out []script
+	r := hx.NewRng(0x1a9e5)
+	for _, n := range []int{3, 5, 7} {
+		k := groupK(n)
+		early, live := allMembers(n)[:k-1], allMembers(n)[k-1:k] // exactly k honest members speak, once each
+		for _, all := range []bool{false, true} {
+			tag := map[bool]string{false: "one", true: "all"}[all]
+			forgeFor := func(v int) bool { return all || v == early[0] }
+			phase := func(name string, pre []string, accept string, extra string) {
+				l := append([]string{header(n, allMembers(n), "64", false) + " life=1"}, pre...)
+				for _, v := range early {
+					if forgeFor(v) {
+						l = append(l, "m "+forged(r, v, n, extra))
+					}
+				}
+				for _, v := range early {
+					l = append(l, "m "+honest(v)+extra)
+				}
+				l = append(l, accept)
+				for _, v := range live {
+					if forgeFor(v) {
+						l = append(l, "m "+forged(r, v, n, ""))
+					}
+					l = append(l, "m "+honest(v))
+				}
+				out = append(out, script{name: fmt.Sprintf("imp-%s-%s-%d", name, tag, n), lines: l})
+			}
+			phase("parked-noparty", nil, "cast accept", "")                       // parked before any party exists
+			phase("parked-r0-notify", []string{"cast wait"}, "notify accept", "") // parked while round0 waits
+			phase("parked-r0-cast", []string{"cast wait"}, "cast accept", "")     // … accepted by a second cast message
+			phase("stored", []string{"cast wait"}, "cast accept", " filed=K")     // stored by round0
+			// live
+			l := []string{header(n, allMembers(n), "64", false), "enter"}
+			for _, v := range allMembers(n)[:k] {
+				if forgeFor(v) {
+					l = append(l, "m "+forged(r, v, n, ""))
+				}
+				l = append(l, "m "+honest(v))
+			}
+			out = append(out, script{name: fmt.Sprintf("imp-live-%s-%d", tag, n), lines: l})
+		}
+	}
+	return out
+}
